@@ -547,7 +547,9 @@ def run_check(prop, tier, seed, replay=None):
         "wall_s": round(wall, 2),
         "violations": len(new_viol) + (1 if (broken or ctx.mismatches) and not new_viol else 0),
     }
-    json.dump(evidence, open(os.path.join(VERIF, "evidence", "%s.json" % prop), "w"), indent=1, default=str)
+    # development runs against a scratch copy (VERIF_REPO=...) never overwrite the evidence of /repo itself
+    ev_path = os.path.join(VERIF, "evidence", "%s.json" % prop) if REPO == "/repo" else os.path.join(BUILD, prop, "evidence_dev.json")
+    json.dump(evidence, open(ev_path, "w"), indent=1, default=str)
     open(os.path.join(BUILD, "%s.log" % prop), "w").write("\n".join(log))
     for ln in out_lines:
         print(ln)
